@@ -204,12 +204,24 @@ def make_classes():
         def m_deco(self, q, r=1):
             return (self.tag, q, r)
 
+        # forwards to an attribute that exists only once the instance is configured: until then the forger fails
+        @specifiers.forwards_to_method('late_target', emulate=True)
+        def m_late(self, a, *args, **kwargs):
+            return (self.tag, a) + self.late_target(*args, **kwargs)
+
+        # an intermediate translator that stays in use on its own while another modifier is stacked on it
+        def _base(self, a, b=1, c=2):
+            return (self.tag, a, b, c)
+        m_base = modifiers.kwoargs('c')(_base)
+        m_strict = modifiers.posoargs(end='a')(m_base)
+
     class Sub(K):
         pass
     return K, Sub
 '''
-METHODS = ('m_kwo', 'm_pos', 'm_fwd', 'm_deco')
-STD_ARGS = {'m_kwo': (10,), 'm_pos': (10,), 'm_fwd': (10, 20), 'm_deco': (5, 10)}
+METHODS = ('m_kwo', 'm_pos', 'm_fwd', 'm_deco', 'm_late', 'm_base', 'm_strict')
+STD_ARGS = {'m_kwo': (10,), 'm_pos': (10,), 'm_fwd': (10, 20), 'm_deco': (5, 10), 'm_late': (10, 20), 'm_base': (10,),
+            'm_strict': (10,)}
 _MOD = {}
 
 
@@ -230,6 +242,7 @@ class World(object):
         self.kept = []
         self.annotated = False
         self.touched = {0: set(), 1: set()}
+        self.configured = set()
 
 
 def ops(w):
@@ -247,6 +260,8 @@ def ops(w):
             out.append(('bind', i, m, False))
             if m in ('m_kwo', 'm_fwd'):
                 out.append(('bind', i, m, True))
+        if i not in w.configured:
+            out.append(('configure', i))
         out.append(('drop', i))
     return out
 
@@ -270,6 +285,10 @@ def apply_op(w, op):
         return safe(lambda: (M.annotate('R')(w.K.__dict__['m_kwo']), 'done')[1])
     i = op[1]
     inst = w.inst[i]
+    if kind == 'configure':
+        w.configured.add(i)
+        inst.late_target = inst.target
+        return ('ok', 'configured')
     if kind == 'sig':
         w.touched[i].add(op[2])
         return safe(lambda: str(sigtools.signature(getattr(inst, op[2]))))
@@ -320,13 +339,15 @@ def canon(w):
 _REF = {}
 
 
-def reference(op, annotated):
-    """What the operation returns on fresh objects (history-free), with the same decoration state."""
-    key = (op, annotated)
+def reference(op, annotated, configured=False):
+    """What the operation returns on fresh objects (history-free), with the same decoration / configuration state."""
+    key = (op, annotated, configured)
     if key not in _REF:
         w = World()
         if annotated:
             apply_op(w, ('annotate',))
+        if configured:
+            apply_op(w, ('configure', op[1]))
         _REF[key] = apply_op(w, op)
     return _REF[key]
 
@@ -342,7 +363,8 @@ def b_run(depth, st, prefix=()):
                              {'cause': obs[2], 'methods': '+'.join(m for m in obs[3] if m in ('m_kwo', 'm_pos')) or 'none'})
             return
         was_annotated = w.annotated and op[0] != 'annotate'
-        want = reference(op, was_annotated if op[0] != 'annotate' else False)
+        conf = len(op) > 1 and op[1] in w.configured and op[0] != 'configure'
+        want = reference(op, was_annotated if op[0] != 'annotate' else False, conf)
         if obs != want:
             st.violation('result-depends-on-history', case,
                          {'history': [list(x) for x in history], 'operation': list(op), 'after_this_history': repr(obs)[:300],
@@ -367,7 +389,7 @@ def b_shard(tier, sh):
             st.inc('transitions')
             if op[0] == 'drop':
                 continue
-            want = reference(op, False)
+            want = reference(op, False, False)
             if obs != want:
                 raise runner.HarnessError('reference is not reproducible for %r' % (op,))
         st.inc('states', 1)
@@ -410,7 +432,7 @@ def run(tier, seed):
                 'compares what the operation returns with the same operation on fresh objects, every drop checks the weak '
                 'reference after gc.collect(); every transition runs the real code',
         'bound': 'part A: functions as C12; steps: one kwoargs name, one posoargs name, autokwoargs, annotate in 3 forms; part B: '
-                 'depth %s, 4 decorated methods, 2 equal-comparing instances + subclass' % ('3 (quick)' if tier == 'quick' else '6'),
+                 'depth %s, 7 decorated methods, 2 equal-comparing instances + subclass' % ('3 (quick)' if tier == 'quick' else '6'),
     }
     assumptions = [
         'an application order in which some step raises ValueError is not admissible and is not compared',
@@ -434,7 +456,7 @@ def replay(art):
             if obs[1]:
                 return [{'history': c['history'], 'op': list(op), 'alive_after_drop': True, 'kept_alive_by': obs[2]}]
             return None
-        want = reference(op, w.annotated and op[0] != 'annotate')
+        want = reference(op, w.annotated and op[0] != 'annotate', len(op) > 1 and op[1] in w.configured and op[0] != 'configure')
         if obs != want:
             return [{'history': c['history'], 'op': list(op), 'after_history': repr(obs)[:300], 'fresh': repr(want)[:300]}]
     return [v['detail'] for v in st.viol] or None
